@@ -30,13 +30,18 @@ package search
 //@ func SortOrder.Compute
 //@   props C16 C09
 //@   opaque
-// the ranking order as a function of the two matches (ASSUMED for the collector contracts: the sort
-// values and hit numbers of the matches compared do not change while they are in the store)
+// the ranking order as a function of the two matches (ASSUMED for the collector contracts, as an
+// `effect`: the sort values and hit numbers of the matches compared do not change while they are in the
+// store). What IS checked against the body: the first sort key on which the two matches differ decides,
+// negated for a descending key, and when no key differs the hit number decides (index order).
 //@ func SortOrder.Compare(i, j) (r)
 //@   props C16 C09
-//@   trusted
-//@   pure
-//@   ensures r == cmp(i, j)
+//@   modifies lastBytesCmp
+//@   effect r == cmp(i, j)
+//@   exit {C09} [first-differing-key-decides] c != 0 ==> (lastBytesCmp != 0 && r == ite(o[x].desc, 0 - lastBytesCmp, lastBytesCmp))
+//@   ensures {C09} [ties-fall-back-to-hit-number] (len(o) == 0 || lastBytesCmp == 0) ==> r == ite(i.HitNumber == j.HitNumber, 0, ite(i.HitNumber > j.HitNumber, 1, 0 - 1))
+//@   loop 1
+//@     invariant {C09} [only-equal-keys-are-passed-over] rangeindex >= 0 ==> lastBytesCmp == 0
 //@ func DocumentMatchPool.Put
 //@   props C16 C09
 //@   opaque
@@ -75,3 +80,11 @@ package search
 //@   ensures [writes-only-its-own-entries] forall s ref :: (forall j int :: (0 <= j && j < len(o)) ==> o[j] != s) ==> (ptr(Sort, s).desc == old(ptr(Sort, s).desc) && ptr(Sort, s).missingFirst == old(ptr(Sort, s).missingFirst))
 //@   loop 1
 //@     invariant forall s ref :: (forall j int :: (0 <= j && j < len(o)) ==> o[j] != s) ==> (ptr(Sort, s).desc == old(ptr(Sort, s).desc) && ptr(Sort, s).missingFirst == old(ptr(Sort, s).missingFirst))
+
+// a missing value sorts last unless "missing first" was asked for, in either direction: the stand-in
+// is the highest term when direction and placement agree (ascending+last, descending+first), else the lowest
+//@ func sortFirstLast.Value(m) (v)
+//@   props C09
+//@   requires c != nil
+//@   modifies
+//@   ensures [missing-value-placement] base(v) == ite((c.desc != nil && deref(c.desc)) == (c.first != nil && deref(c.first)), base(highTerm), base(lowTerm))
